@@ -213,7 +213,7 @@ INFO = {
     "functions": ["mappyfile.pprint.PrettyPrinter._format", "mappyfile.pprint.PrettyPrinter.format_value", "mappyfile.pprint.PrettyPrinter.check_options_list",
                   "mappyfile.pprint.PrettyPrinter.process_attribute", "mappyfile.pprint.PrettyPrinter.process_repeated_list",
                   "mappyfile.quoter.Quoter.*", "mappyfile.ordereddict.CaseInsensitiveOrderedDict.__missing__"],
-    "bounds": {"string_len": "quick 0..3, thorough 0..5; code points 32..0x2FFF without ' \" and backslash",
+    "bounds": {"string_len": "quick 0..3, thorough 0..4; code points 32..0x2FFF without ' \" and backslash",
                "numbers": "selected by symbolic index from a fixed list of ints/floats", "options": "indent 4, quote ' or \"",
                "positions": "sibling keyword before/after; hidden key at 3 places"},
     "outside": ["strings containing a quote character (documented limitation)",
@@ -296,7 +296,7 @@ def obligations(tier, seed):
     obs = []
     quick = tier == "quick"
     G = groups(quick)
-    lens = (0, 3) if quick else (0, 1, 2, 3, 4, 5)
+    lens = (0, 3) if quick else (0, 1, 2, 3, 4)
     NV = 2 if quick else 4                     # sibling before/after (quick) + hidden-key placements (thorough)
     NN = 4 if quick else len(NUMS)
     # keys whose alternatives include an enum make the printer lower-case the (symbolic) string: costly, so one obligation each
